@@ -117,6 +117,13 @@ def _asdict_layers(finfo):
         norm(i).endswith('.has_default') for i in gen.ifs) and \
         norm(val).endswith('.default_value'):
       return ['default']
+    if isinstance(it, ast.Call) and norm(it) == 'self._declarations.items()' \
+        and isinstance(gen.target, ast.Tuple) and len(gen.target.elts) == 2:
+      # `for key, declaration in self._declarations.items()`
+      k, d = [dotted(e) for e in gen.target.elts]
+      if dotted(key) == k and dotted(val) == (d or '?') + '.default_value' \
+          and len(gen.ifs) == 1 and dotted(gen.ifs[0]) == d + '.has_default':
+        return ['default']
     if isinstance(it, ast.Call) and norm(it) == 'self._flag_values.items()' \
         and isinstance(gen.target, ast.Tuple) and len(gen.target.elts) == 2:
       k, v = [dotted(e) for e in gen.target.elts]
@@ -382,7 +389,15 @@ def r4_who(report, repo):
         continue
       n += 1
       owner = core.owner_qualname(node)
-      report.check(m.relpath == CF and owner in owners, rule, owner, node, node,
+      val = getattr(node, 'value', None)
+      empty_init = owner == C + '.__init__' and isinstance(
+          node, (ast.Assign, ast.AnnAssign)) and (
+              (isinstance(val, ast.Dict) and not val.keys) or
+              (isinstance(val, ast.Call) and call_name(val) == 'dict' and
+               not val.args and not val.keywords))
+      # creating the (empty) table in the constructor is not a write to it
+      report.check(m.relpath == CF and (owner in owners or empty_init), rule,
+                   owner, node, node,
                    '%s written in %s' % (attr, owner),
                    '%s is written in %s (%s): %s' %
                    (attr, owner, norm(node),
